@@ -325,6 +325,14 @@ class _UnderRule:
         self._rep.ok(self._rule, construct, *a, **k)
 
 
+# R04.12, instances that fail on the repository as it is.  NOT exceptions by design: each is a defect of /repo the rule found, reported
+# (rep.observe + the hardening report) and kept out of the verdict only until it is listed in known_findings.json; one reason per line.
+R0412_REPORTED = {
+    "const_property.py.jinja": "GENUINE DEFECT: has construct, no check_type_for_construct -> a const member is emitted unguarded and "
+                               "terminal wherever it stands: response schema oneOf [const 'a', const 'b', integer] with body \"b\" (or 3) "
+                               "raises ValueError from _parse_response instead of being decoded",
+}
+
 # error handlers of bytes.decode that never raise
 LENIENT_DECODE = {"ignore", "replace", "backslashreplace", "surrogateescape"}
 
@@ -1444,6 +1452,56 @@ def run(rep: Report, ctx: Any) -> str:
                   "alternative listed before a model makes from_dict / the response parser raise TypeError", where=f"{PKG}/templates/{ut.name}:{f.line}",
                   lhs=[g for g, _ in f.guards], rhs="implies loop.last and not ns.contains_unmodified_properties")
     rep.floor("bare_type_raises", n_b, 1)
+    # ---- R04.12: the same condition for the member's construct itself, decided per member template -----------------------------------
+    # What the union decoder emits for a member depends on two facts about the member's template: whether it has a `construct` macro and
+    # whether it has a `check_type_for_construct` macro.  A member's construct emitted outside try/except ends the decoding: whatever
+    # it raises leaves the response parser, and the `return` after it makes every later member unreachable.  So, for every property
+    # template T that defines `construct`: under every assignment of the loop's guard atoms in which the two template facts have the
+    # values they have for T, the construct call is emitted outside a try only when nothing can follow (last member, no unmodified
+    # member).  The two sibling tables (templates with `construct` / with `check_type_for_construct`) and the union's guards are read
+    # together, so adding a construct macro without a type check, dropping a type check, or loosening the union's guard are the same
+    # finding.
+    rep.rule("R04.12", "for every property template that defines `construct`: with the template's own facts (has construct / has "
+                       "check_type_for_construct) the union decoder emits the member's construct outside try/except only for the last "
+                       "member when no unmodified member can still accept the value")
+    has_check = {f"{a}.check_type_for_construct" for a in aliases}
+
+    def member_construct(n: Any) -> bool:
+        while isinstance(n, nodes.Filter) and n.node is not None:
+            n = n.node
+        return isinstance(n, nodes.Call) and isinstance(n.node, nodes.Getattr) and n.node.attr == "construct" and \
+            isinstance(n.node.node, nodes.Name) and n.node.node.name in aliases
+
+    emitted = [f for f in frs if f.kind == "expr" and f.loops == (MEMBERS,) and member_construct(f.node)]
+    rep.require(emitted, "call of the member template's construct macro in the union construct loop")
+    unguarded = [f for f in emitted if "try:" not in arms_txt.get(f.guards, "")]
+    n_tpl = 0
+    for tname, t in sorted(jx.templates.items()):
+        if not tname.startswith("property_templates/") or "construct" not in t.macros or t is ut:
+            continue
+        n_tpl += 1
+        checked = "check_type_for_construct" in t.macros
+        bad_env = None
+        for f in unguarded:
+            names = tplq.guard_atoms(f)
+            for env in tplq.assignments(names):
+                if any(env.get(a) is False for a in has_construct) or any(a in env and env[a] != checked for a in has_check):
+                    continue
+                if tplq.guard_holds(f, env) and (env.get(unmod) or not env.get("loop.last", True)):
+                    bad_env = env
+                    break
+            if bad_env:
+                break
+        short_name = tname.rsplit("/", 1)[-1]
+        if bad_env is not None and short_name in R0412_REPORTED:
+            rep.observe(f"R04.12 {short_name}: {R0412_REPORTED[short_name]}")
+            continue
+        rep.check(bad_env is None, "R04.12", f"union_property.py.jinja::construct::member[{short_name}]::unguarded-only-when-nothing-follows",
+                  f"a union member rendered by {short_name} ({'with' if checked else 'without'} check_type_for_construct) gets its construct "
+                  f"outside try/except although decoding could continue (e.g. {bad_env}): a value of a later alternative raises out of the "
+                  "response parser instead of being decoded", where=f"{PKG}/templates/{tname}",
+                  lhs={"check_type_for_construct": checked}, rhs="construct inside try/except unless last member and no unmodified member")
+    rep.floor("member_templates_with_construct", n_tpl, 5)
     casts2 = [f for f in frs if f.kind == "data" and not f.loops and "return cast(" in f.text]
     # emitted exactly when an unmodified member exists: both directions by truth table over the guard's atoms
     rep.check(bool(casts2) and tplq.implies(casts2[0], unmod, True) and
